@@ -140,6 +140,7 @@ PROPS = {
         subs=[
             rapid("faults", "TestC06Faults", 2500, 25000),
             enum("fault-matrix", "TestC06FaultMatrix"),
+            enum("values-without-content", "TestC06ValuesWithoutContent"),
             fuzz("faults", "FuzzC06Faults", 60),
             rapid("random-domain", "TestC06RandomDomain", 20000, 200000),
             rapid("ill-typed-expressions", "TestC06IllTypedExpressions", 10000, 100000),
@@ -319,6 +320,7 @@ PROPS = {
             rapid("bridge", "TestC16Bridge", 10000, 100000),
             enum("signature-table", "TestC16SignatureTable"),
             rapid("conversion-rule", "TestC16ConversionRule", 3000, 30000),
+            enum("types-that-print-alike", "TestC16TypesThatPrintAlike"),
         ],
     ),
     "C17": dict(
